@@ -48,4 +48,23 @@ CLAIMS['C19'] = dict(
     note=('relative to: clang-14 lowering, STIR, throw model of externals; a single failing allocation per operation; operations '
           'outside the owners hold owners by value so unwinding releases through the verified destructors'),
     technique='static analysis: abstract fault enumeration at allocation sites (STIR) + throw-set / landing-pad / allocation-site facts over LLVM IR')
+CLAIMS['C04'] = dict(
+    level='proof',
+    text=('Closed representation (struct layouts; only members of buffer<T>/string_stream store to the owner fields, checked on the IR; '
+          'compile-fail witnesses for privacy and const handles), deep write-freedom of every const member / const-reference function, '
+          'no bitwise copies of owner objects, the mutator allow-list of ST::string, and read-before-write ordering for raw pointer / '
+          'view arguments (self-reference). With C05\'s inductive exclusive-ownership invariant this proves that reads never mutate and '
+          'no two live strings share storage, for all operation sequences.'),
+    note=('relative to: clang-14 lowering, effect summaries by pointer provenance (model of externals by declared const-ness), C05; '
+          'that returned VALUES are the right bytes is the subject of C07-C09, not of this check'),
+    technique='static analysis: effect summaries + IR encapsulation rules + CFG event ordering + compile-fail witnesses')
+CLAIMS['C18'] = dict(
+    level='proof',
+    text=('For every library function that may write a string / buffer / string_stream / std::basic_string through `this` or a non-const '
+          'reference (136 target parameters) and every rvalue parameter it may move from, a forward analysis over the function\'s CFG '
+          'shows that no call whose throw set contains unicode_error / codec_error / bad_format / out_of_range can follow the first '
+          'write to the target or the consumption of the rvalue. Throw sets and write/move effects come from whole-module summaries.'),
+    note=('relative to: clang-14 lowering, effect and throw summaries, CFG paths not pruned for feasibility (conservative); FILE* / '
+          'ostream sinks are not targets; leak-freedom on these paths is C19'),
+    technique='static analysis: typestate-style event ordering on CFGs with interprocedural effect and throw summaries')
 NOT_APPLICABLE = {}
